@@ -12,7 +12,7 @@ def dumps(x) -> str:
         if x == "":
             return '""'
         if any(c in _SPECIAL for c in x):
-            return '"' + x.replace("\\", "\\\\").replace('"', '\\"').replace("\n", "\\n").replace("\t", "\\t") + '"'
+            return '"' + x.replace("\\", "\\\\").replace('"', '\\"').replace("\n", "\\n").replace("\t", "\\t").replace("\r", "\\r") + '"'
         return x
     if isinstance(x, (list, tuple)):
         return "(" + " ".join(dumps(e) for e in x) + ")"
@@ -48,7 +48,7 @@ def loads(s: str):
                 if s[pos] == "\\":
                     pos += 1
                     e = s[pos]
-                    buf.append({"n": "\n", "t": "\t"}.get(e, e))
+                    buf.append({"n": "\n", "t": "\t", "r": "\r"}.get(e, e))
                 else:
                     buf.append(s[pos])
                 pos += 1
